@@ -320,6 +320,19 @@ def m_choice(kind):
             if kind == "dup-third":
                 ch[1].pop("label")
             return E(2, True, sheet="choices")
+        if kind in ("badref-label-equals-name", "badref-label-equals-earlier-name", "badref-label-equals-list"):
+            # a malformed reference in a choice label is refused also when the same text stands in a cell that is not checked (name, list name)
+            bad = "cost_${"
+            if kind == "badref-label-equals-name":
+                ch[1] = {"list_name": "c", "name": bad, "label": bad}
+            elif kind == "badref-label-equals-earlier-name":
+                ch[0] = {"list_name": "c", "name": bad, "label": "X"}
+                ch[1] = {"list_name": "c", "name": "y", "label": bad}
+            else:
+                ch.insert(0, {"list_name": bad, "name": "k", "label": "K"})
+                ch[2] = {"list_name": "c", "name": "y", "label": bad}
+                return E(2, True, sheet="choices")
+            return E(1, True, sheet="choices")
         if kind == "invalid-mult":
             ch[1] = {"list_name": "c", "name": "y y", "label": "Y"}
             k = next((k for k, r in enumerate(rows) if r["type"] == "select_one c"), None)
@@ -450,6 +463,13 @@ def m_seq(kind):
             rows[k].pop("calculation", None)
             rows.insert(0, {"type": "select_multiple_from_file f.xml", "name": "ff0", "label": "F"})
             return E(k + 1, False, ["label"])
+        if kind in ("calc-without-after-calc", "calc-without-after-calc-bare"):
+            # a calculate row without calculation is refused whatever the rows before it carried (an earlier calculation, other bind cells)
+            if not q:
+                raise Skip
+            rows[k] = {"type": "calculate", "name": rows[k]["name"], "_n": i} if kind.endswith("bare") else {**{c: v for c, v in rows[k].items() if c not in ("calculation", "label")}, "type": "calculate"}
+            rows.insert(0, {"type": "calculate", "name": "cz9", "calculation": "1 + 1"})
+            return E(k + 1, True, phrase="issing calculation")
         if kind in ("trigger-target-dup", "trigger-geopoint-target-dup"):
             # a triggered calculation whose own name also occurs elsewhere: the setvalue's target would be ambiguous
             if not q:
@@ -527,6 +547,11 @@ def m_seq(kind):
 
 
 CATALOGUE = {
+    "calc-without-after-calc": m_seq("calc-without-after-calc"),
+    "calc-without-after-calc-bare": m_seq("calc-without-after-calc-bare"),
+    "choice-badref-label-equals-name": m_choice("badref-label-equals-name"),
+    "choice-badref-label-equals-earlier-name": m_choice("badref-label-equals-earlier-name"),
+    "choice-badref-label-equals-list": m_choice("badref-label-equals-list"),
     "select-param-after-from-file": m_seq("select-param-after-from-file"),
     "select-param-label-after-from-file": m_seq("select-param-label-after-from-file"),
     "trigger-target-dup": m_seq("trigger-target-dup"),
